@@ -917,6 +917,8 @@ func (c *Ctx) rangeMap(x *ast.RangeStmt, u *types.Map, ls *LoopSpec, ord int) fl
 	nv := &Val{K: VLogic, T: Store(vis, k, True)}
 	c.Fr.Ghost[visName] = nv
 	c.Fr.Ghost["$visited"] = nv
+	c.Fr.Ghost["$prev"] = &Val{K: VLogic, T: vis}
+	c.Fr.Ghost["$key"] = Scalar(k, u.Key())
 	c.curPos = x.Pos()
 	c.checkInvariants(ls, ord, "keep")
 	panic(pathEnd{"loop body end"})
